@@ -34,6 +34,7 @@ Fault gen_file_fault(Rng &r, const FontImage &fi);
 Fault gen_code_fault(Rng &r, const FontImage &fi);
 Fault gen_loop_fault(Rng &r, const FontImage &fi);
 Fault gen_pseudo_fault(Rng &r, const FontImage &fi);
+Fault gen_state_fault(Rng &r, const FontImage &fi);
 Fault gen_gid_fault(Rng &r, const FontImage &fi, const std::vector<u32> &cps);
 extern int g_pseudo_bias;
 extern u32 g_pseudo_focus;
